@@ -48,4 +48,4 @@ check('C17', title='Sent application messages are stored exactly as transmitted'
       text='Same search as C16; after every event, for every sequence number up to the latest + 3, the persister returns exactly the bytes of the application message '
            'that went on the wire under that number (batches are split by BodyLength), and returns nothing for numbers used by administrative messages or not used at all. ' + _SR + ' Parts two-sessions: the same schedule search with two Session objects in the process, one sender thread each (threaded: preemption bound 2, pipelined with both writer threads: bound 0, that is every order of the voluntary switches, quick), each session judged on its own wire and store.',
       level_note='As C16; schedule search over the file store with its system calls as scheduling points, preemption bound 2 (quick).', rule=_RULE + '; send-vs-receive: execution = one complete schedule',
-      assumptions=_ASSUME + _SRA, parts=_parts('C17', 4, 6))
+      assumptions=_ASSUME + _SRA, budget={'quick': 260, 'thorough': 2800}, parts=_parts('C17', 4, 6))
